@@ -110,19 +110,23 @@ def main(tier, seed):
     # plus long histories over every two-word alphabet (repeated periods, long alternations)
     seen_h = set(hs)
     hs = hs + [h for h in R.long_histories(8 if tier == "quick" else 11) if h not in seen_h]
+    # ... and, for the first two layouts only, every history up to 7 (thorough 9) words over each three-word alphabet
+    seen_h = set(hs)
+    hs3 = [h for h in R.long_histories(6 if tier == "quick" else 9, pairs=("dtx", "dat", "dax", "atx")) if h not in seen_h]
     # only maximal histories need to run when shutdown is explored at every prefix: a history is a prefix of
     # its extensions, but shutdown in each mode at each point is part of the alphabet, so run them all
     items = []
-    for lay in layouts(tier):
-        for i in range(0, len(hs), 40):
-            items.append(dict(layout=lay, histories=hs[i:i + 40], seed=seed))
+    for li, lay in enumerate(layouts(tier)):
+        hh = hs + (hs3 if li < 2 else [])
+        for i in range(0, len(hh), 40):
+            items.append(dict(layout=lay, histories=hh[i:i + 40], seed=seed))
     res = core.Result()
     states = set()
     for d in core.parallel("mc.props.c05", "work", items, seed=seed):
         states.update(tuple(x) for x in d["extra"].pop("_states", []))
         res.merge(d)
     res.states = len(states)
-    res.bounds.update(two_word_history_depth=8 if tier == "quick" else 11, history_depth=depth, layouts=len(layouts(tier)), histories_per_layout=len(hs), alphabet="boot word + one driver-station word per loop iteration from {disabled, autonomous, teleop, test}; shutdown after every history")
+    res.bounds.update(three_word_history_depth=6 if tier == "quick" else 9, two_word_history_depth=8 if tier == "quick" else 11, history_depth=depth, layouts=len(layouts(tier)), histories_per_layout=len(hs), alphabet="boot word + one driver-station word per loop iteration from {disabled, autonomous, teleop, test}; shutdown after every history")
     rule = (
         "every driver-station history up to the stated depth (boot word, then one word per control-loop iteration, then endCompetition) "
         "for every generated robot layout, executed through the real MagicRobot.startCompetition() in a baton-serialized thread; oracle = loop "
